@@ -31,6 +31,11 @@ AllSet == \A s \in Slots : slots[s] # 0
 Init == /\ slots = [s \in Slots |-> 0] /\ nominal = 0 /\ boreH = "nominal" /\ design = <<>>
         /\ hist = <<>> /\ finds = <<>> /\ other = 0
 
+\* exhaustive configuration: the history starts after a straight-line configuration (every slot set to variant 1, nominal height 1,
+\* no design yet); TLC then enumerates EVERY continuation of at most MaxCalls calls
+InitPreset == /\ slots = [s \in Slots |-> 1] /\ nominal = 1 /\ boreH = "nominal" /\ design = <<>>
+              /\ hist = <<>> /\ finds = <<>> /\ other = 0
+
 Bound == Len(hist) < MaxCalls
 
 Set(s, v) == /\ Bound /\ s # "bore" /\ v \in Variants(s)
